@@ -251,9 +251,8 @@ impl Property for C13 {
         if crlf {
             stats.class("crlf");
         }
-        let (answered, joined, _) = srv.shutdown();
-        if !answered || !joined {
-            return Verdict::fail("c13|shutdown", "server did not shut down cleanly".to_string());
+        if let Err((sig, detail)) = srv.finish("c13") {
+            return Verdict::fail(sig, detail);
         }
         Verdict::Pass { nontrivial: nontrivial && probes > 0 }
     }
